@@ -4,6 +4,7 @@ CONSTANTS
   Fuel = 4
   Quarantine = {"prim:const", "var:direct", "var:field", "var:index", "prim:call"}
   Only = {}
+  Offsets = {0}
   Allow = {}
   Emit = TRUE
 INVARIANTS OneValue NothingDropped Terminates PrecedenceShape EmitReplay
